@@ -368,7 +368,8 @@ class Context(MutableMapping[Identifier, Symbol]):
             queue += starred_context.get_starred_imports(seen_by_origin=seen)
 
             # Add the resolved names to this context
-            for symbol in starred_context.declared_symbols:
+            # NOTE In declaration order, `declared_symbols` is an (unordered) set
+            for symbol in starred_context.symbol_table.symbols:
                 self.add(
                     Import(
                         name=symbol.name,
